@@ -7,7 +7,9 @@ Core subset (this file): scalar types with bounds (nullable through a type list)
 scalars, arrays with a single `items` schema and minItems / maxItems, objects with typed
 properties + `required` + boolean `additionalProperties`, objects that are pure maps
 (`additionalProperties: <schema>`, no properties), local `$ref` through a definitions environment,
-`anyOf` / `oneOf`. Draft-4 boolean exclusive bounds are normalised beforehand
+`anyOf` / `oneOf`, `allOf` of `$ref` parts with one inline object and an allOf-level `required`, and
+OpenAPI discriminated unions (`disc`: oneOf/anyOf of `$ref`s + `discriminator` with a written or implicit
+mapping; validity = the union as JSON Schema reads it AND the tag selecting a valid alternative). Draft-4 boolean exclusive bounds are normalised beforehand
 (`Dcg.Model.Constraints.normaliseSide`, theorem `C04.exclusive_normalise_sound`); here
 `exclMin` / `exclMax` are numbers. Regular expressions are an uninterpreted oracle `re pattern s`
 shared by both sides of every statement.
